@@ -510,7 +510,30 @@ func runTemplates(ctx *bex.Ctx, h *harness) {
 	} {
 		emit(src)
 	}
-	ctx.SpaceDone(fmt.Sprintf("21 programs with locals named like static functions, closures under method names in constant maps and lazy constants iterated twice; %d wrappers x %d bodies x {tick, ptick} (counting closures used through pure higher-order built-ins inside functions/closures applied to constants and to the argument), %d constants x %d methods x 4 placements (one constant list used twice, once through a copying method); each function generated once and evaluated on a = 0,1,2,1; results re-observed after the later evaluations", len(wrappers), len(bodies), len(consts), len(methods)))
+	// (d) a constant lazy stage that runs its function on the stack it is handed, stored in a let and consumed
+	// behind later lets (folded: evaluated on a private stack; unfolded: on the evaluation stack, later)
+	stackStages := []string{"[1,2,3,4].combine((p,q)->p+q)", "[1,2,3,4].combine3((p,q,r)->p+q+r)", "[1,2,3].number((n,e)->n*10+e)", "[1,1,2,3].compact((p,q)->p=q)",
+		"[1,2].cross([10,20],(p,q)->p+q)", "[2,2,2].iir(e->e,(e,l)->e+l)", "[1,2,3,4].combineN(2,l->l[0]+l[1])", "[1,2,3].map(e->e*2)", "[1,2,3].accept(e->e>1)",
+		"[1,3].merge([2,4],(p,q)->p<q)", "[1,2,3].visit(0,(v,e)->v+e)", "[3,1,2].orderLess((p,q)->p<q)"}
+	for _, st := range stackStages {
+		for _, use := range []string{"c.sum()", "c.string()", "c.size()", "c.first()", "[c.sum(),c.sum()].string()"} {
+			if strings.Contains(st, "visit") {
+				use = "c"
+			}
+			emit("let c=" + st + "; let p=a; let q=a*2; let r=a*3; " + use + "+p+q+r")
+			emit("let c=" + st + "; let f=(p,q,r)->" + use + "+p+q+r; f(a,a*2,a*3)")
+			emit("let c=" + st + "; let p=a; let q=[a,a*2].map(e->e+1); let r=a*3; " + use + "+p+q.sum()+r")
+		}
+	}
+	// (e) ill-formed applications of constant closures: too many / too few constant arguments
+	for _, src := range []string{
+		"(x->x+1)(1,2)+a", "(x->x+1)()+a", "((x,y)->x+y)(1)+a", "((x,y)->x+y)(1,2,3)+a", "func mul(p,q) p*q; [mul(2,3), mul(2,3,4)].string()+a", "func mul(p,q) p*q; mul(2)+a",
+		"let m={f:(p,q)->p+q}; try (m.f)(1,2,3) catch \"failed\"", "let m={f:(p,q)->p+q}; try m.f(1,2,3) catch \"failed\"", "let m={f:(p,q)->p+q}; try m.f(1) catch \"failed\"",
+		"try (x->x+1)(1,2) catch a", "let g=x->x*2; g(1,2)+a", "let g=x->x*2; [1,2].map(g).sum()+g(3,4)+a", "abs(1,2)+a", "try sqrt() catch a", "[1,2].size(1)+a", "\"ab\".len(1)+a",
+	} {
+		emit(src)
+	}
+	ctx.SpaceDone(fmt.Sprintf("12 constant lazy stages stored in a let and consumed behind later lets / inside a closure x 5 uses x 3 forms; 16 ill-formed applications (too many / too few constant arguments of constant closures, funcs, map-field closures, static functions, methods); 21 programs with locals named like static functions, closures under method names in constant maps and lazy constants iterated twice; %d wrappers x %d bodies x {tick, ptick} (counting closures used through pure higher-order built-ins inside functions/closures applied to constants and to the argument), %d constants x %d methods x 4 placements (one constant list used twice, once through a copying method); each function generated once and evaluated on a = 0,1,2,1; results re-observed after the later evaluations", len(wrappers), len(bodies), len(consts), len(methods)))
 }
 
 func replay(repro map[string]any) (string, bool) {
